@@ -169,11 +169,102 @@ def replay_cmp(pid, path):
     return 1 if v.violations else 0
 
 
+
+# ======================================================================= text / object family
+OBJ = {
+    "C04": {"modes": ["parse"], "mc": {"quick": [("text", "MCText.tla", "MCText.cfg")], "thorough": [("text", "MCText.tla", "MCText.cfg")]},
+            "rule": "texts parsed with all six hash types by from_bytes_with_last_index (index preset to a sentinel), from_bytes and str::parse: all texts up to length 4(5) over {3,6,1,0,9,:,',',A,/,!,0x80}; structured texts (every block size spelling class x block hashes of up to 3 runs with lengths from {0,1,3,4,7,29..36,61..68,100,200} x terminators); the capacity-border run family; byte-level mutations of accepted texts and generator output. non-trivial = texts beyond the exhaustive tiny-alphabet part",
+            "nontrivial": ("parse", "structured")},
+    "C05": {"modes": ["fmt", "parse"], "mc": {"quick": [("text", "MCText.tla", "MCText.cfg")], "thorough": [("text", "MCText.tla", "MCText.cfg")]},
+            "rule": "objects of the four plain types for all 31 block sizes x lengths {0,1,31,32,33,63,64}^2 plus random: to_string / Display / String::from / len_in_str / MAX_LEN_IN_STR / store_into_bytes into sentinel-filled buffers (every length 0..max+8 for a sample, borders for the rest) / parse back; plus text -> object -> text on every accepted text of the C04 corpus. non-trivial = objects formatted",
+            "nontrivial": ("fmt", "objects")},
+    "C06": {"modes": ["norm"], "mc": {"quick": [("dual_c8a2", "MCDual.tla", "MCDual_c8a2.cfg")], "thorough": [("dual_c8a2", "MCDual.tla", "MCDual_c8a2.cfg"), ("dual_c12a2", "MCDual.tla", "MCDual_c12a2.cfg")]},
+            "rule": "raw hashes with one run of every length at every start (64 and 32 symbol block hashes), adjacent runs, runs touching both ends, three runs, geometric random runs; 16 routes to the normalised hash each (normalize, in place incl. after a longer value, clone_normalized, From/Into, from_raw_form, parsing into normalising and dual types, dual as_normalized/to_normalized, twice). non-trivial = raw hashes",
+            "nontrivial": ("norm", "hashes")},
+    "C07": {"modes": ["dual"], "mc": {"quick": [("dual_c8a2", "MCDual.tla", "MCDual_c8a2.cfg")], "thorough": [("dual_c8a2", "MCDual.tla", "MCDual_c8a2.cfg"), ("dual_c8a3", "MCDual.tla", "MCDual_c8a3.cfg"), ("dual_c12a2", "MCDual.tla", "MCDual_c12a2.cfg")]},
+            "rule": "raw hashes of both capacities (run layouts of C06, runs needing exactly N/4 RLE symbols, runs ending at the capacity, random) turned into dual hashes by 7 routes (from_raw_form, From, init_from_raw_form into a dirty object, new_from_internals, new_from_internals_near_raw, str::parse, from_bytes); every route: validity, raw form (fresh and into a dirty destination), normalised part, texts, pairwise ==/cmp/Hash; normalize_in_place. non-trivial = raw hashes",
+            "nontrivial": ("dual", "hashes")},
+    "C11": {"modes": ["hist", "ctor"], "mc": {"quick": [("dual_c8a2", "MCDual.tla", "MCDual_c8a2.cfg")], "thorough": [("dual_c8a2", "MCDual.tla", "MCDual_c8a2.cfg")]},
+            "rule": "histories over 12 typed object slots (two per type): every operation of the conversion graph from a fresh value into a destination that holds the longest possible content, followed by every operation that reads the written slot; random histories of 50..200 steps (set from internals, parse, generator output, 60 operations incl. into_mut_*, init_from_raw_form, try_into_mut_short, in-place normalisation); after every step is_valid / full_eq against a rebuilt object / {:?} / text of the written slot. Constructor calls (4 plain + 2 dual constructors x 6 types) with one contract clause violated at a time. non-trivial = history steps + constructor calls aimed at a clause",
+            "nontrivial": ("hist", "steps")},
+    "C15": {"modes": ["hist"], "mc": {"quick": [("dual_c8a2", "MCDual.tla", "MCDual_c8a2.cfg")], "thorough": [("dual_c8a2", "MCDual.tla", "MCDual_c8a2.cfg")]},
+            "rule": "the conversion steps of the object histories (see C11): after any chain the destination holds the value the DIRECT conversion gives (run-collapsed iff the target type or the operation normalises), widening/narrowing round trips, narrowing fails iff block hash 2 is longer than 32 and then leaves the destination as it was, text differs at most by run collapsing. non-trivial = history steps",
+            "nontrivial": ("hist", "steps")},
+    "C16": {"modes": ["ord"], "mc": {"quick": [("order", "MCOrder.tla", "MCOrder.cfg")], "thorough": [("order", "MCOrder.tla", "MCOrder.cfg")]},
+            "rule": "ordered pairs of the complete domain {k in 0,1,30} x bh1 over {A,B,/} up to length 2(3) x bh2 up to 2 (a third of the pairs in quick, all in thorough) per type in rotation, sort() of the whole domain, random full-length pairs differing by trailing 'A's, dual families sharing a normalised part (full cmp / eq / hash matrices). non-trivial = pair / family events",
+            "nontrivial": ("ord", "events")},
+}
+
+
+def _obj_violation(v, r, cache):
+    evs = cache.setdefault(r["file"], read_events(r["file"]))
+    k = r["rejected_at"]
+    what = "object trace rejected at event %d of %s: observed %s ; %s" % (k, os.path.basename(r["file"]), json.dumps(evs[k - 1])[:500], (r["mismatch"] or ["no spec step matches this event"])[0][:600])
+    unit = unit_of(evs, k, None) if evs[k - 1]["ev"] in ("op", "ctor") else [evs[k - 1]]
+    v.violation(what, {"family": "obj", "property": v.pid, "events": unit, "offending_event": evs[k - 1], "spec": r["mismatch"][:1]})
+
+
+def check_family(pid, tier, table, fam, module, cfg, violation):
+    v = Verdict(pid, tier)
+    cfgp = table[pid]
+    binp = build_harness()
+    files = []
+    stats = {}
+    for mode in cfgp["modes"]:
+        out = fresh_dir("tr_%s_%s" % (pid, mode))
+        stats.update(run_harness(binp, [fam, mode, "--seed", str(seed()), "--tier", tier, "--out", out, "--shards", str(TV_PAR)]))
+        files += sorted(glob.glob(os.path.join(out, "*.ndjson")))
+    for name, mod, c in cfgp["mc"][tier]:
+        v.add_mc(run_mc(name, mod, c))
+    res = run_tv(module, cfg, files, timeout=3000)
+    v.add_tv(module + ":" + "+".join(cfgp["modes"]), res)
+    cache = {}
+    for r in res:
+        if not r["accepted"]:
+            violation(v, r, cache)
+    nev = sum(1 for f in files for _ in open(f))
+    v.cov["evaluations"] = nev
+    nt = cfgp["nontrivial"]
+    v.cov["distinct_nontrivial"] = stats.get(nt[0], {}).get(nt[1], 0) if nt else nev
+    v.cov["driver_stats"] = stats
+    v.cov["rule"] = cfgp["rule"]
+    evs = read_events(files[0])
+    v.cov["samples"] = [json.dumps(e)[:500] for e in evs[:3]]
+    v.assumptions = ["TLC/SANY 1.8.0, CommunityModules", "Text.tla / BlockHash.tla / Order.tla / Dual.tla transcribe the property statements (grammar, run collapsing, documented order, RLE canonical form)", "the harness only serialises what the API returned"]
+    return v.finish()
+
+
+def check_obj(pid, tier):
+    return check_family(pid, tier, OBJ, "obj", "TraceObj.tla", "TraceObj.cfg", _obj_violation)
+
+
+def replay_obj(pid, path):
+    v = Verdict(pid, "quick")
+    obj = json.load(open(path))
+    binp = build_harness()
+    out = fresh_dir("replay_" + pid)
+    inp = os.path.join(out, "in.ndjson")
+    with open(inp, "w") as f:
+        for e in obj["events"]:
+            f.write(json.dumps(e) + "\n")
+    run_harness(binp, ["replay", "obj", inp, "--out", out])
+    files = [x for x in sorted(glob.glob(os.path.join(out, "*.ndjson"))) if not x.endswith("in.ndjson")]
+    res = run_tv("TraceObj.tla", "TraceObj.cfg", files)
+    cache = {}
+    for r in res:
+        if not r["accepted"]:
+            _obj_violation(v, r, cache)
+    return 1 if v.violations else 0
+
+
 CHECKS = {"C01": check_gen, "C03": check_gen, "C12": check_gen, "C13": check_gen}
 REPLAY = {"C01": replay_gen, "C03": replay_gen, "C12": replay_gen, "C13": replay_gen}
 for _p in CMP:
     CHECKS[_p] = check_cmp
     REPLAY[_p] = replay_cmp
+for _p in OBJ:
+    CHECKS[_p] = check_obj
+    REPLAY[_p] = replay_obj
 
 
 def replay(pid, path):
